@@ -138,11 +138,14 @@ func makeC08Input(seed int64, stream string, idx int) c08Input {
 		}
 	case "models":
 		var m *openfgav1.AuthorizationModel
-		switch r.Intn(3) {
+		switch r.Intn(4) {
 		case 0:
 			m = c02Model(r)
 		case 1:
 			m = c14Model(r)
+		case 2:
+			// no uniqueness constraint: identical direct assignments / tuple-to-usersets under one operator
+			m = gen.Model(r, gen.ModelOpt{Conditions: true, Hazards: true, Wildcards: 2, FreeThis: true, MaxRel: 3})
 		default:
 			m = gen.Model(r, gen.ModelOpt{Conditions: true, Hazards: true, Wildcards: 2})
 		}
